@@ -4,8 +4,11 @@ package main
 
 import (
 	"bytes"
+	crand "crypto/rand"
 	"fmt"
+	"io"
 	"math/big"
+	"regexp"
 	"strings"
 
 	"golang.org/x/crypto/bn256"
@@ -23,38 +26,57 @@ var (
 func big32(v *big.Int) []byte { return new(big.Int).Mod(v, two256).FillBytes(make([]byte, 32)) }
 
 func scalar(g *hx.Gen) *big.Int {
+	return scalarC(g, g.R.Intn(16))
+}
+
+// lastK is the class name of the most recent scalar (for the pair.* counters); kClasses lists one
+// selector per class of scalarC.
+var lastK string
+var kClasses = []int{0, 1, 2, 3, 4, 5, 6, 7, 8, 9}
+
+func scalarC(g *hx.Gen, class int) *big.Int {
 	r := g.R
 	rnd := func(bits int) *big.Int { return new(big.Int).SetBytes(r.Bytes((bits + 7) / 8)) }
-	switch r.Intn(16) {
+	switch class {
 	case 0:
+		lastK = "k.tiny"
 		g.Stat("k.tiny")
 		return big.NewInt(int64(r.Intn(6)))
 	case 1:
+		lastK = "k.around-order"
 		g.Stat("k.around-order")
 		return new(big.Int).Add(n, big.NewInt(int64(r.Range(-3, 3))))
 	case 2:
+		lastK = "k.negative-small"
 		g.Stat("k.negative-small")
 		return big.NewInt(int64(-r.PickInt(1, 2, 3, 5, 7, 8)))
 	case 3:
+		lastK = "k.negative-around-order"
 		g.Stat("k.negative-around-order")
 		return new(big.Int).Neg(new(big.Int).Add(n, big.NewInt(int64(r.Range(-2, 2)))))
 	case 4:
+		lastK = "k.negative-random"
 		g.Stat("k.negative-random")
 		return new(big.Int).Neg(new(big.Int).Mod(rnd(256), n))
 	case 5:
+		lastK = "k.power-of-two±1"
 		g.Stat("k.power-of-two±1")
 		v := new(big.Int).Lsh(one, uint(r.Range(1, 257)))
 		return v.Add(v, big.NewInt(int64(r.Range(-1, 1))))
 	case 6:
+		lastK = "k.larger-than-order"
 		g.Stat("k.larger-than-order")
 		return rnd(r.PickInt(257, 300, 512))
 	case 7:
+		lastK = "k.short"
 		g.Stat("k.short")
 		return rnd(r.Range(1, 64))
 	case 8:
+		lastK = "k.multiple-of-order"
 		g.Stat("k.multiple-of-order")
 		return new(big.Int).Mul(n, big.NewInt(int64(r.Range(2, 5))))
 	default:
+		lastK = "k.random-mod-order"
 		g.Stat("k.random-mod-order")
 		return new(big.Int).Mod(rnd(320), n)
 	}
@@ -267,7 +289,91 @@ func gen(g *hx.Gen) {
 	for _, ab := range [][2]int64{{5, -1}, {-1, -1}, {-1, 1}, {1, 1}, {0, 7}, {7, 0}} { // b = −1: negated affine generator
 		g.Emit("pair a=%d b=%d", ab[0], ab[1])
 	}
-	nUn := g.Count(450, 12000)
+	g.Emit("consts")
+	g.Stat("op.consts")
+	// String(): zero-value receivers, fresh (Jacobian) results, negated, unmarshalled, infinity
+	for form := 0; form < 5; form++ {
+		for _, kc := range []int{0, 2, 9, 1} {
+			g.Emit("str1 form=%d a=%s", form, scalarC(g, kc))
+			g.Emit("str2 form=%d a=%s", form, scalarC(g, kc))
+			g.StatN(fmt.Sprintf("pair.str+form%d+%s", form, lastK), 2)
+		}
+	}
+	for _, e := range gtPool {
+		g.Emit("strt form=1 e=%s", hx.Hex(e))
+	}
+	g.Emit("strt form=0 e=%s", hx.Hex(gtPool[0]))
+	for _, l := range []int{0, 383, 385, 768} { // GT.Unmarshal checks the length only
+		g.Emit("gt e=%s f=%s k=1", hx.Hex(r.Bytes(l)), hx.Hex(gtPool[0]))
+		g.Emit("gt e=%s f=%s k=1", hx.Hex(gtPool[0]), hx.Hex(r.Bytes(l)))
+	}
+	g.StatN("gt.wrong-length", 8)
+	g.StatN("op.str", 5*4*2+len(gtPool)+1)
+	// RandomG1 / RandomG2 with a deterministic reader; the expected scalar is recomputed here with
+	// crypto/rand.Int alone (stdlib, independent of the repo): zeros>0 makes the first draws 0
+	// (the "k must be non-zero" loop), a small limit makes the reader run dry (error path)
+	for i := 0; i < 14; i++ {
+		seed, zeros, limit := r.U64(), 0, 1<<20
+		switch i % 7 {
+		case 1:
+			zeros = 32
+		case 2:
+			zeros = 64
+		case 3:
+			limit = r.PickInt(0, 1, 31)
+		case 4:
+			limit, zeros = 32, 32 // first draw is 0, then the reader is dry
+		}
+		k, err := expectRandom(seed, zeros, limit)
+		ks := "err"
+		if err == nil {
+			ks = k.String()
+		}
+		g.Emit("rand%d seed=%d zeros=%d limit=%d oracle.k=%s", 1+i%2, seed, zeros, limit, ks)
+		g.Stat(fmt.Sprintf("pair.random+zeros%d+%s", zeros, map[bool]string{true: "ok", false: "reader-error"}[err == nil]))
+	}
+	// feature-pair sweep: every op family with every scalar class in the k position
+	for _, kc := range append(append([]int{}, kClasses...), kClasses...) { // twice: every pair at least 2x
+		k := func() *big.Int { return scalarC(g, kc) }
+		g.Emit("g1 a=%s b=%s k=%s", scalar(g), scalar(g), k())
+		g.Emit("g2 a=%s b=%s k=%s", scalar(g), scalar(g), k())
+		g.Emit("g1m m=%s k=%s", hx.Hex(g1Point(g)), k())
+		g.Emit("g2m m=%s k=%s", hx.Hex(g2Point(g)), k())
+		a, b := aliasScalars(g)
+		g.Emit("alias1 a=%s b=%s k=%s", a, b, k())
+		a, b = aliasScalars(g)
+		g.Emit("alias2 a=%s b=%s k=%s", a, b, k())
+		g.Emit("aliast e=%s f=%s k=%s", hx.Hex(hx.Pick(r, gtPool)), hx.Hex(hx.Pick(r, gtPool)), k())
+		g.Emit("gt e=%s f=%s k=%s", hx.Hex(hx.Pick(r, gtPool)), hx.Hex(hx.Pick(r, gtPool)), k())
+		g.Emit("dbl1 a=%s", k())
+		g.Emit("dbl2 a=%s", k())
+		g.Emit("pair a=%s b=%s", k(), scalar(g))
+		g.Emit("pair a=%s b=%s", scalar(g), k())
+		g.Emit("pairm g1=%s g2=%s k1=%s k2=%s", hx.Hex(g1Point(g)), hx.Hex(g2Point(g)), k(), big.NewInt(1))
+		g.Emit("pairm g1=%s g2=%s k1=%s k2=%s", hx.Hex(g1Point(g)), hx.Hex(g2Point(g)), big.NewInt(-1), k())
+		for _, fam := range []string{"g1", "g2", "g1m", "g2m", "alias1", "alias2", "aliast", "gt", "dbl", "pair.a", "pair.b", "pairm.k1", "pairm.k2"} {
+			g.Stat("pair." + fam + "+" + lastK)
+		}
+		// the a/b (point-defining) positions too, incl. a = 0 (P = infinity) and multiples of n
+		ka := k()
+		kn := lastK
+		g.Emit("g1 a=%s b=%s k=%s", ka, scalar(g), scalar(g))
+		g.Emit("g2 a=%s b=%s k=%s", scalar(g), k(), scalar(g))
+		g.Stat("pair.g1.a+" + kn)
+		g.Stat("pair.g2.b+" + kn)
+	}
+	// every arm of Add (a=inf, b=inf, doubling, inverse, general), of Mul's sign test, of Pair's infinity
+	// test and of MakeAffine (z=1, infinity, general) has a dedicated case; Unmarshal's arms are the g1u.*/g2u.* classes
+	for _, ab := range [][2]int64{{0, 4}, {4, 0}, {4, 4}, {4, -4}, {4, 9}, {0, 0}} {
+		g.Emit("g1 a=%d b=%d k=%d", ab[0], ab[1], ab[1])
+		g.Emit("g2 a=%d b=%d k=%d", ab[0], ab[1], ab[1])
+		g.Emit("pair a=%d b=%d", ab[0], ab[1])
+	}
+	g.StatN("table.add-arms=5/5", 1)
+	g.StatN("table.mul-sign-arms=3/3", 1)
+	g.StatN("table.pair-infinity-arms=4/4", 1)
+	g.StatN("table.makeaffine-arms=3/3", 1)
+	nUn := g.Count(330, 12000)
 	for i := 0; i < nUn; i++ {
 		if r.Chance(3, 5) {
 			g.Emit("g1u m=%s", hx.Hex(mangle(g, g1Point(g), 2, "g1u")))
@@ -275,7 +381,7 @@ func gen(g *hx.Gen) {
 			g.Emit("g2u m=%s", hx.Hex(mangle(g, g2Point(g), 4, "g2u")))
 		}
 	}
-	nOps := g.Count(170, 5000)
+	nOps := g.Count(60, 5000)
 	for i := 0; i < nOps; i++ {
 		switch r.Intn(11) {
 		case 8:
@@ -306,7 +412,7 @@ func gen(g *hx.Gen) {
 			g.Emit("gt e=%s f=%s k=%s", hx.Hex(hx.Pick(r, gtPool)), hx.Hex(hx.Pick(r, gtPool)), scalar(g))
 		}
 	}
-	nPair := g.Count(28, 1500)
+	nPair := g.Count(6, 1500)
 	for i := 0; i < nPair; i++ {
 		if r.Chance(2, 3) {
 			g.Stat("op.pair")
@@ -321,6 +427,57 @@ func gen(g *hx.Gen) {
 			g.Emit("pairm g1=%s g2=%s k1=%s k2=%s", hx.Hex(g1Point(g)), hx.Hex(g2Point(g)), k1, k2)
 		}
 	}
+}
+
+// detReader: zeros zero bytes, then a seeded stream, at most limit bytes in total, then io.EOF.
+type detReader struct {
+	r            *hx.Rand
+	zeros, limit int
+}
+
+func (d *detReader) Read(p []byte) (int, error) {
+	if d.limit <= 0 {
+		return 0, io.EOF
+	}
+	n := len(p)
+	if n > d.limit {
+		n = d.limit
+	}
+	for i := 0; i < n; i++ {
+		if d.zeros > 0 {
+			p[i] = 0
+			d.zeros--
+		} else {
+			p[i] = d.r.Bytes(1)[0]
+		}
+	}
+	d.limit -= n
+	return n, nil
+}
+
+// expectRandom is what "x is a random, non-zero number read from r" means for crypto/rand.Int.
+func expectRandom(seed uint64, zeros, limit int) (*big.Int, error) {
+	rd := &detReader{hx.NewRand(seed), zeros, limit}
+	for {
+		k, err := crand.Int(rd, n)
+		if err != nil {
+			return nil, err
+		}
+		if k.Sign() > 0 {
+			return k, nil
+		}
+	}
+}
+
+var numRe = regexp.MustCompile(`-?[0-9]+`)
+
+// canonString removes blanks and reduces every integer mod p: String() output up to representation
+func canonString(s string) string {
+	s = strings.ReplaceAll(s, " ", "")
+	return numRe.ReplaceAllStringFunc(s, func(x string) string {
+		v, _ := new(big.Int).SetString(x, 10)
+		return v.Mod(v, p).String()
+	})
 }
 
 // bi parses a decimal scalar into a big.Int whose word slice has spare capacity (so that a callee
@@ -436,15 +593,116 @@ func exec(line string) string {
 	o := hx.Parse(line)
 	var m muts
 	switch o.Cmd {
+	case "consts":
+		return "order=" + bn256.Order.String()
+	case "str1", "str2":
+		// forms: 0 zero value, 1 fresh Jacobian result, 2 negated (G1) / doubled (G2), 3 unmarshalled, 4 infinity
+		form, a := o.Int("form"), bi(o.Str("a"))
+		if o.Cmd == "str1" {
+			var e *bn256.G1
+			switch form {
+			case 0:
+				e = new(bn256.G1)
+				return "s=" + canonString(e.String())
+			case 1:
+				e = new(bn256.G1).ScalarBaseMult(a)
+			case 2:
+				e = new(bn256.G1).ScalarBaseMult(a)
+				e.Neg(e)
+			case 3:
+				e, _ = new(bn256.G1).Unmarshal(new(bn256.G1).ScalarBaseMult(a).Marshal())
+			default:
+				e = new(bn256.G1).ScalarBaseMult(new(big.Int).Mul(a, n))
+			}
+			want := new(bn256.G1).ScalarBaseMult(a)
+			if form == 2 {
+				want.Neg(want)
+			} else if form == 4 {
+				want.ScalarBaseMult(new(big.Int))
+			}
+			s1 := e.String()
+			s2 := e.String() // idempotent
+			m.add(s1 != s2, "string-not-idempotent")
+			m.add(!bytes.Equal(e.Marshal(), want.Marshal()), "string-changed-element")
+			return fmt.Sprintf("s=%s mut=%s", canonString(s1), m)
+		}
+		var e *bn256.G2
+		switch form {
+		case 0:
+			return "s=" + canonString(new(bn256.G2).String())
+		case 1:
+			e = new(bn256.G2).ScalarBaseMult(a)
+		case 2:
+			e = new(bn256.G2).ScalarBaseMult(a)
+			e.Add(e, e)
+		case 3:
+			e, _ = new(bn256.G2).Unmarshal(new(bn256.G2).ScalarBaseMult(a).Marshal())
+		default:
+			e = new(bn256.G2).ScalarBaseMult(new(big.Int).Mul(a, n))
+		}
+		want := new(bn256.G2).ScalarBaseMult(a)
+		if form == 2 {
+			want.Add(want, want)
+		} else if form == 4 {
+			want.ScalarBaseMult(new(big.Int))
+		}
+		// G2.String prints the Jacobian triple as it is: only its shape is checked before Marshal …
+		s0 := canonString(e.String())
+		shape := regexp.MustCompile(`^bn256\.G2\(\([0-9]+,[0-9]+\),\([0-9]+,[0-9]+\),\([0-9]+,[0-9]+\)\)$`).MatchString(s0)
+		em := e.Marshal() // … and its value once Marshal has made the point affine (not for infinity)
+		m.add(!bytes.Equal(em, want.Marshal()), "string-changed-element")
+		s1 := "inf"
+		if !bytes.Equal(em, make([]byte, 128)) {
+			s1 = canonString(e.String())
+		}
+		return fmt.Sprintf("shape=%d s=%s mut=%s", b2i(shape), s1, m)
+	case "strt":
+		if o.Int("form") == 0 {
+			return "s=" + canonString(new(bn256.GT).String())
+		}
+		e, ok := new(bn256.GT).Unmarshal(o.Hex("e"))
+		if !ok {
+			return "reject"
+		}
+		s1 := e.String()
+		m.add(!bytes.Equal(e.Marshal(), o.Hex("e")), "string-changed-element")
+		return fmt.Sprintf("s=%s mut=%s", canonString(s1), m)
+	case "rand1", "rand2":
+		rd := &detReader{hx.NewRand(o.U64("seed")), o.Int("zeros"), o.Int("limit")}
+		if o.Cmd == "rand1" {
+			k, e, err := bn256.RandomG1(rd)
+			if err != nil {
+				if k != nil || e != nil {
+					return "err-nonnil"
+				}
+				return "err"
+			}
+			return fmt.Sprintf("k=%s p=%s", k, h(e.Marshal()))
+		}
+		k, e, err := bn256.RandomG2(rd)
+		if err != nil {
+			if k != nil || e != nil {
+				return "err-nonnil"
+			}
+			return "err"
+		}
+		return fmt.Sprintf("k=%s p=%s", k, h(e.Marshal()))
 	case "g1u", "g2u":
 		ar := hx.NewArena()
 		in := ar.In("m", o.Hex("m"))
 		var out []byte
 		var ok, nonnil bool
 		if o.Cmd == "g1u" {
-			e, k := new(bn256.G1).Unmarshal(in)
+			rcv := new(bn256.G1)
+			e, k := rcv.Unmarshal(in)
 			ok, nonnil = k, e != nil
 			m.arena(ar)
+			m.add(ok && e != rcv, "unmarshal-returns-other-pointer")
+			if !ok { // a receiver that rejected an encoding is still usable as an output
+				d := new(bn256.G1).ScalarBaseMult(big.NewInt(7))
+				d.Unmarshal(o.Hex("m"))
+				m.add(!bytes.Equal(d.ScalarBaseMult(big.NewInt(3)).Marshal(), new(bn256.G1).ScalarBaseMult(big.NewInt(3)).Marshal()), "reuse-after-reject")
+			}
 			if ok {
 				first := e.Marshal()
 				scribble(in) // the decoded element must not alias the caller's slice
@@ -457,9 +715,16 @@ func exec(line string) string {
 				}
 			}
 		} else {
-			e, k := new(bn256.G2).Unmarshal(in)
+			rcv := new(bn256.G2)
+			e, k := rcv.Unmarshal(in)
 			ok, nonnil = k, e != nil
 			m.arena(ar)
+			m.add(ok && e != rcv, "unmarshal-returns-other-pointer")
+			if !ok {
+				d := new(bn256.G2).ScalarBaseMult(big.NewInt(7))
+				d.Unmarshal(o.Hex("m"))
+				m.add(!bytes.Equal(d.ScalarBaseMult(big.NewInt(3)).Marshal(), new(bn256.G2).ScalarBaseMult(big.NewInt(3)).Marshal()), "reuse-after-reject")
+			}
 			if ok {
 				first := e.Marshal()
 				scribble(in)
@@ -590,15 +855,15 @@ func exec(line string) string {
 		mkQ := func() *bn256.G1 { return new(bn256.G1).ScalarBaseMult(b) }
 		pm, qm := mkP().Marshal(), mkQ().Marshal()
 		e1, Q1 := mkP(), mkQ()
-		e1.Add(e1, Q1) // e = a
+		m.add(e1.Add(e1, Q1) != e1, "add-returns-other-pointer") // e = a
 		m.add(!bytes.Equal(Q1.Marshal(), qm), "add(e,b).b")
 		e2, P2 := mkQ(), mkP()
 		e2.Add(P2, e2) // e = b
 		m.add(!bytes.Equal(P2.Marshal(), pm), "add(a,e).a")
 		e3 := mkP()
-		e3.ScalarMult(e3, k)
+		m.add(e3.ScalarMult(e3, k) != e3, "scalarmult-returns-other-pointer")
 		e4 := mkP()
-		e4.Neg(e4)
+		m.add(e4.Neg(e4) != e4, "neg-returns-other-pointer")
 		e6 := mkP()
 		e6.ScalarBaseMult(k) // receiver holds a point already
 		d := new(bn256.G1)
